@@ -169,14 +169,14 @@ func checkConverged(cur *stk.View, set *tmtypes.ValidatorSet, which string, h in
 	for _, e := range el {
 		elMap[e.Addr] = e
 	}
-	if set.Size() != n {
-		return stk.Violate("convergence", "size", "height %d: after 5 blocks without stake changes the %s validator set has %d members, the election from the records has %d (eligible %d, top count %d)", h, which, set.Size(), n, len(el), cur.Staking.Top)
-	}
 	minPower := int64(-1)
 	members := map[string]bool{}
 	for _, m := range set.Validators {
 		a := stk.Addr(m.Address.Bytes())
 		e := elMap[a]
+		if e == nil && cur.Vals[a] == nil {
+			return stk.Violate("convergence", "member-without-record", "height %d: after 5 blocks without stake changes %s is in the %s validator set with voting power %d but has no validator record (locked stake %s)", h, a, which, m.VotingPower, cur.TotalOf(a))
+		}
 		if e == nil {
 			return stk.Violate("convergence", "member-not-eligible", "height %d: after 5 blocks without stake changes %s is in the %s validator set but not eligible by the records", h, a, which)
 		}
@@ -187,6 +187,9 @@ func checkConverged(cur *stk.View, set *tmtypes.ValidatorSet, which string, h in
 		if minPower < 0 || e.Power < minPower {
 			minPower = e.Power
 		}
+	}
+	if set.Size() != n {
+		return stk.Violate("convergence", "size", "height %d: after 5 blocks without stake changes the %s validator set has %d members, the election from the records has %d (eligible %d, top count %d)", h, which, set.Size(), n, len(el), cur.Staking.Top)
 	}
 	for _, e := range el {
 		if !members[e.Addr] && e.Power > minPower {
@@ -352,10 +355,7 @@ func genParams(rt *rapid.T, h *run.H, mode string) sim.Params {
 		return stk.FocusParams(rt, fmt.Sprint(h.Seed), "small", h.Excluded)
 	}
 	p := hist.GenParams(rt, fmt.Sprint(h.Seed))
-	if p.ValPower[0] < 700000 && p.Frankenstein != 0 && h.Excluded(stk.ExclLastEligible) {
-		// the anchor validator stays electable when the fork block forces the minimum to 500000
-		p.ValPower[0] = 700000 + p.ValPower[0]%7
-	}
+	stk.ProtectParams(&p, h.Excluded)
 	return p
 }
 
@@ -393,13 +393,19 @@ func TestC10(t *testing.T) {
 			d.tail = 6
 		}
 		o := newObserver(p)
-		viol, w := stk.Execute(h, tr, d.draw, []stk.Observer{o})
-		if w != nil {
-			defer w.Close()
+		viol := stk.Execute(h, tr, d.draw, []stk.Observer{o})
+		if viol != nil && viol.Oracle == "harness" && viol.Class == "world" {
+			rt.Skip(viol.Msg)
 		}
 		nt, classes := classesOf(o, d)
 		classes = append(classes, "mode-"+mode)
 		h.Eval(nt, classes, tr.Summary())
+		if os.Getenv("C10_FDDEBUG") != "" {
+			es, _ := os.ReadDir("/proc/self/fd")
+			f, _ := os.OpenFile("/dev/shm/c10fd.log", os.O_APPEND|os.O_CREATE|os.O_WRONLY, 0o644)
+			fmt.Fprintf(f, "%s blocks=%d fds=%d viol=%v\n", mode, len(tr.Steps), len(es), viol != nil)
+			f.Close()
+		}
 		if viol != nil {
 			h.Fail(rt, viol.Oracle, viol.Sig("C10"), tr, "%s", viol.Msg)
 		}
@@ -422,10 +428,7 @@ func TestReplay(t *testing.T) {
 	h := run.Start(t, "C10")
 	defer h.Finish()
 	o := newObserver(tr.Params)
-	viol, w := stk.Execute(h, &tr, nil, []stk.Observer{o})
-	if w != nil {
-		defer w.Close()
-	}
+	viol := stk.Execute(h, &tr, nil, []stk.Observer{o})
 	if viol != nil {
 		h.Fail(t, viol.Oracle, viol.Sig("C10"), &tr, "%s", viol.Msg)
 	}
